@@ -320,4 +320,52 @@ def loadGroups (fixed : Bool) (w : World) : Itab → List GroupReq → Res (Itab
 def loadFile (fixed : Bool) (w : World) (base : Scope) (gs : List GroupReq) : Res (Itab × List GroupOut) :=
   loadGroups fixed w [base] gs
 
+/-! ## dependency-first package resolution (`utils.go:findDependency`, used by `engine.go:findTypeNoCache`) -/
+
+/-- a package of the analysed program's import graph: its path, `Complete()`, and `Imports()` as indices into the graph -/
+structure DPkg where
+  path : Bytes
+  complete : Bool
+  imports : List Nat
+deriving Repr, DecidableEq
+
+abbrev DGraph := List DPkg
+
+def DGraph.isComplete (g : DGraph) (d : Nat) : Bool :=
+  match g[d]? with
+  | some p => p.complete
+  | none => false
+
+/-- `findDependency(pkg, path)`:
+```
+if pkg.Path() == path { return pkg }
+for _, imported := range pkg.Imports() {
+    if dep := findDependency(imported, path); dep != nil && dep.Complete() { return dep }
+}
+return nil
+```
+`fuel` bounds the depth of the recursion (import graphs are acyclic: `g.length` is always enough). -/
+def findDep (g : DGraph) (path : Bytes) : Nat → Nat → Option Nat
+  | 0, _ => none
+  | fuel + 1, i =>
+    match g[i]? with
+    | none => none
+    | some p =>
+      if p.path == path then some i
+      else p.imports.findSome? fun j =>
+        match findDep g path fuel j with
+        | some d => if g.isComplete d then some d else none
+        | none => none
+
+/-- where `findTypeNoCache` takes the package of a fully-qualified name from -/
+inductive PkgSource
+  | graph (d : Nat)     -- a package of the analysed program (found by `findDependency`)
+  | importer            -- the engine's own importer (its build context), the fallback
+deriving Repr, DecidableEq
+
+def pkgSource (g : DGraph) (root : Nat) (path : Bytes) : PkgSource :=
+  match findDep g path g.length.succ root with
+  | some d => .graph d
+  | none => .importer
+
 end ImpM
